@@ -70,6 +70,10 @@ SET(z) == {Cat(w, Alt(l, m)) : w \in Wild, l \in L2s, m \in L2s}
 ML(z) == {Cat(Look("bol"), Cat(w, l)) : w \in Wild, l \in L2}
        \cup {Cat(Look("bol"), l) : l \in L2} \cup {Cat(l, Look("eol")) : l \in L2}
 
+\* class / bounded prefix + a suffix literal that overlaps itself: a rejected occurrence is overlapped by the valid one
+OVL(z) == {Cat(w, LitStr(l)) : w \in {Plus(Cls({sa,sb}),TRUE), Plus(Dot,TRUE), Rep(Cls({sa,sb}),2,2,TRUE), Plus(Cls({sa,sb,s0}),TRUE), Rep(Cls({s0,s1}),1,2,TRUE)},
+                              l \in {<<sa,sa>>, <<sa,sb,sa>>, <<sa,sb,sa,sb>>, <<sdot,sa,sdot,sa>>, <<s0,s0>>, <<sdash,s1,sdash,s1>>}}
+
 (* ---- anchored ---- *)
 Body == Close({Lit(sa), Lit(sb), Cls({sa,sb}), Dot}, FALSE) \cup L2
 ANC(z) == {Cat(Look("bot"), b) : b \in Body} \cup {Cat(b, Look("eot")) : b \in Body}
@@ -153,7 +157,7 @@ FamilySet(f) ==
     [] f = "OP"  -> OP(0)
     [] f = "G1"  -> G1(0)
     [] f = "LIT" -> LIT(0) \cup LITF(0)
-    [] f = "REV" -> SUF(0) \cup INN(0) \cup SET(0) \cup ML(0)
+    [] f = "REV" -> SUF(0) \cup INN(0) \cup SET(0) \cup ML(0) \cup OVL(0)
     [] f = "ANC" -> ANC(0)
     [] f = "CC"  -> CC(0) \cup CC3(0)
     [] f = "DIG" -> DIG(0)
@@ -199,6 +203,20 @@ SeqsUpTo(S, n) == IF n = 0 THEN {<<>>} ELSE SeqsUpTo(S, n-1) \cup [1..n -> S]
 \* the longest length whose haystack count stays within the budget
 RECURSIVE GeoSum(_,_)
 GeoSum(k, l) == IF l = 0 THEN 1 ELSE k * GeoSum(k, l-1) + 1
+(* Language-guided haystacks.  All sequences up to a length exhaust short inputs only (5 symbols: length 2-3); the
+   behaviours that need more - an attempt that gets somewhere and dies, followed by a match that takes another path -
+   are built from the pattern's own language: Lang = the words of length <= 3 the pattern matches exactly, and
+   Splice = every proper non-empty prefix of a word (an attempt that is cut short) or a whole word, followed by a word. *)
+LangUpTo(prog, al, n) == {w \in SeqsUpTo(al, n) : w # <<>> /\ (Len(w) + 1) \in EndsP(prog, w, 1)}
+RECURSIVE SpliceSumAcc(_,_,_)
+SpliceSumAcc(h, k, acc) == IF k > Len(h) THEN acc ELSE SpliceSumAcc(h, k + 1, (acc * 7 + h[k]) % 1000003)
+Splice(prog, al, cap) ==
+  LET Lg  == LangUpTo(prog, al, 3)
+      all == {SubSeq(t[1], 1, t[3]) \o t[2] : t \in {u \in Lg \X Lg \X (1..3) : u[3] <= Len(u[1])}}
+      c   == Cardinality(all)
+      m   == IF c <= cap THEN 1 ELSE (c + cap - 1) \div cap
+  IN {x \in all : SpliceSumAcc(x, 1, Len(x)) % m = 0}
+
 RECURSIVE LenFor(_,_,_)
 LenFor(k, budget, lcap) == IF lcap <= 1 \/ GeoSum(k, lcap) <= budget THEN lcap ELSE LenFor(k, budget, lcap - 1)
 =============================================================================
